@@ -130,6 +130,9 @@ def run(ctx, host=None):
         if n.id not in reach:
             continue
         for e in E.of(n):
+            if e[0] in ('RMDIR', 'RMTREE'):
+                chk.bad(R1, DELETE, n.text(100), 'delete_objects removes a directory of the container: with loose_prefix_len=0 the parent of a loose file is loose/ itself, so deleting the last loose object '
+                        'would remove the folder every other operation relies on', where=n.where)
             if e[0] == 'UNLINK':
                 nun += 1
                 ar = areas(K, e[1])
